@@ -102,7 +102,7 @@ def styles(rng):
 
 def random_case(ctx, n):
     rng = ctx.rng('random', n)
-    mt = gen.gen_table(rng, 't', max_rows=6)
+    mt = gen.gen_table(rng, 't', max_rows=8)
     conn = engine.connection([mt])
     qg = gen.QueryGen(rng, max_depth=3, obj_keys=False)
     hidden = 0
@@ -127,6 +127,13 @@ def random_case(ctx, n):
         if rng.random() < 0.7:
             q.order_by = qg.order_keys(q)
             hidden += sum(1 for k in (q.order_by or []) if k.kind == 'expr' and all(k.value.key() != t.expr.key() for t in q.targets))
+    # LIMIT (smaller than, equal to and larger than the result) and DISTINCT: the shape of the rows must not depend on them
+    r = rng.random()
+    if r < 0.35:
+        q.limit = rng.choice([0, 1, 2, 3, 5, 100])
+        ctx.count('obs.statements_with_limit')
+    if rng.random() < 0.15:
+        q.distinct = True
     for sname, style in styles(rng):
         check_statement(ctx, conn, q, sname, style, f'random/{n}', hidden)
     ctx.count('random.executed')
@@ -235,7 +242,7 @@ def replay(ctx, case):
 def finalize(merged):
     c = merged['counters']
     reasons = []
-    for k in ('obs.names_by_rule.alias', 'obs.names_by_rule.column', 'obs.names_by_rule.text', 'obs.hidden_targets',
+    for k in ('obs.statements_with_limit', 'obs.names_by_rule.alias', 'obs.names_by_rule.column', 'obs.names_by_rule.text', 'obs.hidden_targets',
               'obs.parse_back', 'obs.wildcard_statements', 'obs.ledger_statements'):
         if c.get(k, 0) == 0:
             reasons.append(f'{k} == 0')
